@@ -10,13 +10,13 @@ CLAIMED = {
          "the plumbing between the ordering and what is reported: the best-first traversal in Collection.Nearby is ordered by geodeticDistAlgo of the query's own centre with boxes forwarded one-to-one, the distance handed to the user iterator is the traversal's own distance for that item; for stored objects the distance is computed from the object's exact rectangle with consistent (lat, lng) argument pairs; in cmdNearby an object is delivered only where `radius > 0 && dist > radius` is known false, against the query circle's Meters(), and the DISTANCE delivered is that same dist; a filter never ends the traversal (R12.filters-never-stop)",
          "everything numeric: that the geodesic point-to-rectangle distance is an admissible lower bound for tree nodes, the haversine values themselves, the R-tree's best-first traversal (library), k-closest over all datasets"),
  "C01": ("path search with boolean correlation on go/cfg from every effective mutation site of the write handlers; must-pass-through of the empty-collection cleanup",
-         "two clauses only: (a) 'an error or negative answer changes nothing' — in every write handler no feasible path leads from an effective mutation of the keyspace, a collection or the hook registry to a return carrying a non-nil error or the NX/XX negative reply; (b) 'a collection exists iff it holds an object' — every deletion of an object from a keyspace collection is followed on all normal paths by the Count() == 0 → cols.Delete cleanup, and a collection registered while empty receives an object on every path that follows; Count(), which the cleanup tests, is maintained symmetrically by every insertion and removal site (R19.delta); (c) two-key commands stay correct when the keys are equal: no keyspace delete is reachable after a keyspace store with a different key expression unless the keys are known to differ",
+         "two clauses only: (a) 'an error or negative answer changes nothing' — in every write handler no feasible path leads from an effective mutation of the keyspace, a collection or the hook registry to a return carrying a non-nil error or the NX/XX negative reply; (b) 'a collection exists iff it holds an object' — every deletion of an object from a keyspace collection is followed on all normal paths by the Count() == 0 → cols.Delete cleanup, and a collection registered while empty receives an object on every path that follows; Count(), which the cleanup tests, is maintained symmetrically by every insertion and removal site (R19.delta); (c) two-key commands stay correct when the keys are equal: no keyspace delete is reachable after a keyspace store with a different key expression unless the keys are known to differ; (d) a command that names the same field twice equals the two commands in sequence: the loop that folds a command's items into an accumulator reads only the accumulator, never the stored state again",
          "equivalence of replies and visible state with the map model over all programs, and exact read-back of objects and field values (value-level; no static argument in reach)"),
  "C03": ("call-graph effect analysis vs extracted command tables; must-pass-through on go/cfg",
          "logging discipline: every handler that can mutate persistent state is in the logged/exclusive/gated write class (computed effects vs the lock table), every apply site passes writeAOF on all non-error paths inside the same critical section, mutations are followed by commandDetails.updated, a registered hook is never modified in place (its definition fields are stored only through a freshly allocated hook), the script class lists agree with the lock table, every name that can reach the log is re-executable at start-up",
          "crash instants and the determinism of replaying a logged command (value-level)"),
  "C07": ("interprocedural lock-state dataflow (go/cfg) with command-table join",
-         "lock discipline: every write of a Server.mu-guarded location runs exclusively and every read at least shared, on every path from every goroutine root; acquire/release pairing in every function; nobody releases a caller's lock",
+         "lock discipline: every write of a Server.mu-guarded location runs exclusively and every read at least shared, on every path from every goroutine root; acquire/release pairing in every function; nobody releases a caller's lock; the queues that carry applied writes from the log writer to the live connections are consumed in the order they were filled",
          "linearizability of actual histories (a property of executions)"),
  "C15": ("command-table extraction and gate-shape matching; effect analysis; dominance on go/cfg",
          "the gate matrix is structural: every write-class arm (and eval/evalsha) carries the follower and read-only gates before dispatch; every object-reading handler is behind the catching-up gate; the three script class switches agree with each other and with the lock table; the authentication test dominates the lock switch with a fixed exemption set; authd is only set on the password-equality edge; the protected-mode test precedes the first read; every documented command has a dispatch arm",
@@ -28,10 +28,10 @@ CLAIMED = {
          "EVAL/EVALSHA hold the exclusive lock for the whole script and EVALRO the shared lock, with no lock operation inside; the read-only class offers no handler with a write effect; script writes pass writeAOF in the same critical section; the script environment equals the reviewed allow-list and its Go functions reach no os/net/syscall function; new globals raise; per-call globals are cleared on every path before a state returns to the pool; the script class is bound to EVAL_CMD which only cmdEvalUnified sets",
          "the Go-level behaviour of the allow-listed gopher-lua builtins (trusted); interleavings are covered by the lock argument, not enumerated"),
  "C09": ("dominance and who-may-call rules on go/cfg; table agreement between the rewrite's emitter and the command parsers",
-         "the rewrite protocol: writes during a shrink are captured whenever they reach the live log; the final step is one exclusive critical section ordered flush → copy shrink log → sync → close → rename(new→live) → reopen → seek → size update; the live log is never renamed away or removed; followers streaming the old log are registered and closed before the rename (R6.stream-registered); the option words the rewrite emits are parsed by SET / SETHOOK, and each component of an object's or hook's state (fields, deadline, geometry/string, metas, message) is emitted under exactly its own guard; the batch cursors resume at the element that stopped the batch",
+         "the rewrite protocol: writes during a shrink are captured whenever they reach the live log; the final step is one exclusive critical section ordered flush → copy shrink log → sync → close → rename(new→live) → reopen → seek → size update; the live log is never renamed away or removed; followers streaming the old log are registered and closed before the rename (R6.stream-registered); the option words the rewrite emits are parsed by SET / SETHOOK, and each component of an object's or hook's state (fields, deadline, geometry/string, metas, message) is emitted under exactly its own guard; the batch cursors resume at the element that stopped the batch; the rewrite file starts empty (os.Create / O_TRUNC / removed first), so nothing of an interrupted earlier shrink follows the new content into the live log",
          "value-level round trip of every object and field kind through the emitted SET, and crash instants inside the individual system calls"),
  "C12": ("table agreement (byte and string case-label sets), dominating-guard extraction on go/cfg, sibling agreement, always-true result analysis of the filter stage, form classification of the range limits",
-         "the shortcut/range machinery around the filters: a filter never ends an iteration (globMatch/testObject report keepGoing = true on every non-error return, pushObject stops only on error, limit or the COUNT comparison); the far range limit of glob.Parse is the successor of the literal prefix (two known findings: prefixes ending in 0xFF); in multiGlobParse every pattern, the first included, passes the 'no literal prefix' test before its limits are merged, and an unbounded pattern unbounds the range and ends the merge; the literal-prefix scan of glob.Parse stops at every byte the matcher treats as an operator; an empty prefix leaves the range unbounded; every glob-bounded iteration still matches each candidate; a COUNT answered from a counter uses the counter of the index the fallback iterates and is guarded by the absence of every filter the fallback applies; parser and matcher agree on the WHERE operators",
+         "the shortcut/range machinery around the filters: a filter never ends an iteration (globMatch/testObject report keepGoing = true on every non-error return, pushObject stops only on error, limit or the COUNT comparison); the far range limit of glob.Parse is the successor of the literal prefix (two known findings: prefixes ending in 0xFF); in multiGlobParse every pattern, the first included, passes the 'no literal prefix' test before its limits are merged, and an unbounded pattern unbounds the range and ends the merge; the literal-prefix scan of glob.Parse stops at every byte the matcher treats as an operator; an empty prefix leaves the range unbounded; every glob-bounded iteration still matches each candidate; a COUNT answered from a counter uses the counter of the index the fallback iterates and is guarded by the absence of every filter the fallback applies; parser and matcher agree on the WHERE operators; the per-kind counters the shortcut reads are maintained by effect tables over every situation of the replaced and the new object (R19.delta)",
          "the glob matching semantics and the value ordering themselves (value-level)"),
  "C19": ("action-set abstraction of the bookkeeping sites (AST), sibling and inverse comparison; who-may-write over resolved field objects",
          "bookkeeping symmetry in internal/collection: both removal sites agree and are the exact inverse of the insertion site in every secondary index and counter, with the same guards and measures; Collection fields are written only by the bookkeeping functions and object fields only by constructors (indexed objects are immutable); the counter accessors return the fields they name; the COUNT shortcuts use the counter of the index they replace",
@@ -46,19 +46,19 @@ CLAIMED = {
          "the cursor protocol: along every path through a per-item callback the cursor is stepped zero times for an item skipped by the offset test and exactly once otherwise, before the user iterator, and the stepping helper itself steps exactly once whenever the cursor is not nil; filters never end the iteration; every Collection iterator with a Cursor pre-steps the offset once under cursor != nil, and its per-item callback counts, skips while count <= offset without calling the user iterator, steps, then calls the user iterator; scanWriter sets hitLimit only at numberItems == limit and stops there, reports numberIters iff hitLimit, and the counters have single writers",
          "that concatenated pages equal the unlimited reply (behaviour over datasets and filters)"),
  "C14": ("reviewed provenance table over resolved object.New call sites; structural checks of comparator, scan direction and sweeper callbacks on go/cfg; bookkeeping symmetry of the expiry index",
-         "expiry as a logged delete (the sweepers pass writeAOF under the exclusive lock), symmetric maintenance of the expiry index with the same guard on insert and delete, the deadline each handler stores (SET/EXPIRE new, FSET inherited, PERSIST/JSET/JDEL none), the expiry index ordered by deadline first and scanned ascending with the sweepers stopping at the first future deadline",
+         "expiry as a logged delete (the sweepers pass writeAOF under the exclusive lock), symmetric maintenance of the expiry index with the same guard on insert and delete, the deadline each handler stores (SET/EXPIRE new, FSET inherited, PERSIST/JSET/JDEL none), the expiry index ordered by deadline first and scanned ascending with the sweepers stopping at the first future deadline; a hook's deadline is part of what Hook.Equals compares, and a follower's reset clears the hook expiry queue with the other registries",
          "timing (never early / bounded delay against the wall clock) and TTL arithmetic"),
  "C04": ("affine-equality abstract interpretation (Karr) over the go/cfg of loadAOF for the file offsets; must-dataflow for the carry buffer; dominance and must-pass-through",
-         "the tail-repair arithmetic of loadAOF, whatever its shape: the arguments of Truncate and Seek and the final aofsz equal (entry offset + bytes read) - len(carry buffer) on every path (affine invariant; library contracts used: os.File.Read returns io.EOF only with n == 0, redcon.ReadNextCommand consumes nothing when incomplete); truncate and seek are paired on all normal paths and their errors returned; the carry buffer holds exactly the unparsed remainder before every read; NUL bytes are tested and skipped before every parse; a non-empty remainder is carried to the next chunk",
+         "the tail-repair arithmetic of loadAOF, whatever its shape: the arguments of Truncate and Seek and the final aofsz equal (entry offset + bytes read) - len(carry buffer) on every path (affine invariant; library contracts used: os.File.Read returns io.EOF only with n == 0, redcon.ReadNextCommand consumes nothing when incomplete); truncate and seek are paired on all normal paths and their errors returned; the carry buffer holds exactly the unparsed remainder before every read; NUL bytes are tested and skipped before every parse; a non-empty remainder is carried to the next chunk; every byte that was read and counted is either consumed by the parser (or the NUL skip) or still in the carry: at the normal return aofsz equals entry offset plus bytes consumed",
          "that the recovered state equals the prefix state (value-level) and RESP framing (library)"),
  "C06": ("dominating-guard extraction and must-pass-through on go/cfg; sibling agreement reset ~ FLUSHDB; command-table read gate; lock-state analysis of the follower registry",
          "the resync protocol: the leader registers a follower's log handle in aofconnM in the same exclusive critical section that opens it and before any byte is streamed, and AOFSHRINK closes every registered connection and file before the rename (no follower keeps streaming a replaced log); caught-up is declared only under own position >= leader's aof_size and cleared before every reconnect; the position handed to the leader describes the local state (position 0 only after the log was re-created and the dataset reset; a truncated position only after truncate → reset → reload → size check); reset clears everything FLUSHDB clears; replicated commands are applied and logged under one exclusive critical section that also covers the generation test; object reads are gated until the follower has caught up once",
          "convergence under arbitrary fault sequences and the checksum search itself"),
  "C05": ("co-update and guard-agreement rules over the hook registries (AST with enclosing guards); table agreement of detect names; lock-state analysis for fence evaluation",
-         "the candidate-selection machinery: the seven hook registries are inserted, deleted and cleared together, with the same guards on the respective hook for the two spatial indexes; getQueueCandidates consults all three candidate indexes; the detect names fenceMatch produces are those DETECT accepts (plus roam); evaluating a fence leaves its shared switches unchanged (a field changed for the 'cross' test is restored on every path, through the pointer or an alias); a registered hook is never modified in place; fence evaluation and queueing run under the exclusive lock; no geometric predicate compares an object with itself",
+         "the candidate-selection machinery: the seven hook registries are inserted, deleted and cleared together, with the same guards on the respective hook for the two spatial indexes; getQueueCandidates consults all three candidate indexes; the detect names fenceMatch produces are those DETECT accepts (plus roam); evaluating a fence leaves its shared switches unchanged (a field changed for the 'cross' test is restored on every path, through the pointer or an alias); a registered hook is never modified in place; fence evaluation and queueing run under the exclusive lock; no geometric predicate compares an object with itself; Hook.Equals, which decides whether a re-issued SETHOOK is a no-op, compares every field cmdSetHook sets from the command (seven reviewed fields excepted); the queues that carry applied writes to the live connections are consumed oldest-first",
          "the enter/exit/inside/outside/cross classification itself and the equality of results over the three transports (value-level)"),
  "C10": ("per-lock interprocedural lock-state dataflow (six auxiliary locks); must-pass-through on go/cfg; table agreement for endpoint protocols",
-         "queue discipline: every access to a subscriber queue, the live-fence stack and buffers, the pub/sub hub table, the follower publish queue and the hook state holds the lock guarding it; the queue index advances under the exclusive server lock; all writes to a subscriber connection go through one closure holding the write lock; a consumer that takes a queue's pending batch resets the queue to a slice with its own backing array; Hook.proc reports the queue drained only after an exhaustive scan and a send loop over the whole collected slice, and the manager waits only after that with an unchanged signal counter; a failed webhook send re-inserts the unsent tail (keys, values and ttls from the same index) before giving up; the endpoint manager's mutex is released on every reachable exit",
+         "queue discipline: every access to a subscriber queue, the live-fence stack and buffers, the pub/sub hub table, the follower publish queue and the hook state holds the lock guarding it; the queue index advances under the exclusive server lock; all writes to a subscriber connection go through one closure holding the write lock; a consumer that takes a queue's pending batch resets the queue to a slice with its own backing array; Hook.proc reports the queue drained only after an exhaustive scan and a send loop over the whole collected slice, and the manager waits only after that with an unchanged signal counter; a failed webhook send re-inserts the unsent tail (keys, values and ttls from the same index) before giving up; the endpoint manager's mutex is released on every reachable exit; the counter that numbers the queued notifications' keys is the one persisted for start-up, after its last increment, on every committing path; the live-connection queues are consumed oldest-first",
          "delivery under endpoint failure patterns and exactly-once at the receiver"),
  "C16": ("zone (difference-bound) abstract interpretation over go/cfg for index/slice bounds, with call-site preconditions, return summaries and verified type invariants; must-pass-through rules for pool pairing; dominance rules for reply writers",
          "'malformed input never crashes the server or affects other connections': every index and slice on strings, argument vectors, byte buffers and arrays in internal/server and internal/glob is proved within bounds on every path (about 450 sites by the analysis, the rest by reviewed exemptions naming one construct or one server-internal unit each); messages are never given an empty argument vector; reply builders that dereference their object are only called with a definitely assigned one; every pooled Lua state is released on every exit, including error returns; handleInputCommand writes exactly one reply per path; every dispatcher recovers the deadline panic; the carry buffers of the stream readers (PipelineReader.ReadMessages, loadAOF) hold exactly the unparsed remainder before the next read and at every normal return (must-dataflow); state written per message and consulted afterwards in the connection loop is scoped to the connection, not to one conn.Read; hand-built RESP lines cannot contain a CR or LF from client text",
